@@ -654,6 +654,7 @@ impl Oracle {
 
     fn find_req_by_content(&self, pkt: &CPacket) -> Option<usize> {
         let seq = match pkt {
+            CPacket::Publish(p) if p.qos > 0 && p.payload.is_empty() && p.topic.len() == 1 && p.topic[0].is_ascii_uppercase() => (p.topic[0] - b'A') as usize,
             CPacket::Publish(p) if p.qos > 0 => *p.payload.first()? as usize,
             CPacket::Subscribe { filters, .. } => seq_of_filter(&filters.first()?.0)?,
             CPacket::Unsubscribe { filters, .. } => seq_of_filter(filters.first()?)?,
